@@ -10,7 +10,7 @@ import (
 
 func init() {
 	Register(&Scenario{Prop: "C19", Name: "progress-monotone", Run: scenC19, SoftParks: true, Weight: 1,
-		Rule: "1-3 writer replicas, one database per instance (type drawn per run); 3-14 (thorough 3-40) writes (single, or 1-3 concurrent local writers stopped at the write-path points while replication goes on) with replication under faults (including block fetches that end with an error), local writes whose cache write fails with a disk error (the entry is in the log, the call reports the error), far-ahead heads (one writer runs ahead while links are cut), clean restart + Load(-1) or (1 in 3) SaveSnapshot + clean restart + LoadFromSnapshot, the heads write at the end of a merge failing with a disk error, progress events held back behind the end of their replication (1 run in 3); GetProgress/GetMax sampled on every open store after every kernel step must never decrease; whenever the world is at rest and a replica's log is complete: progress == max and maxLamport <= progress <= Len; non-trivial = >=3 writes, >=1 at-rest check on a replica that replicated >=1 entry (or single replica), >=20 samples"})
+		Rule: "1-3 writer replicas, one database per instance (type drawn per run); 3-14 (thorough 3-40) writes (single, or 1-3 concurrent local writers stopped at the write-path points while replication goes on) with replication under faults (including block fetches that end with an error), Load(-1) called on a running replica beside a replication round (preferably one whose log is still empty), local writes whose cache write fails with a disk error (the entry is in the log, the call reports the error), far-ahead heads (one writer runs ahead while links are cut), clean restart + Load(-1) or (1 in 3) SaveSnapshot + clean restart + LoadFromSnapshot, the heads write at the end of a merge failing with a disk error, progress events held back behind the end of their replication (1 run in 3); GetProgress/GetMax sampled on every open store after every kernel step must never decrease; whenever the world is at rest and a replica's log is complete: progress == max and maxLamport <= progress <= Len; non-trivial = >=3 writes, >=1 at-rest check on a replica that replicated >=1 entry (or single replica), >=20 samples"})
 }
 
 func scenC19(k *K) {
@@ -105,7 +105,33 @@ func scenC19(k *K) {
 		}
 	}
 	for i := 0; i < nops; i++ {
-		switch k.C.Weighted([]int{8, 2, 1, 1, 2, 1, 1}) {
+		switch k.C.Weighted([]int{8, 2, 1, 1, 2, 1, 1, 2}) {
+		case 7:
+			// Load(-1) called on a replica while a replication round may be under way on it
+			// (heads announced or being fetched, nothing merged yet, or a batch waiting):
+			// preferably on a replica whose log is still empty
+			node := k.C.Intn(n)
+			for o := 0; o < n; o++ {
+				if c.Stores[o] != nil && c.Stores[o].OpLog().Len() == 0 && k.C.Chance(2, 3) {
+					node = o
+				}
+			}
+			if st := c.Stores[node]; st != nil {
+				if st.OpLog().Len() == 0 {
+					if !ReplicatorIdle(st) {
+						k.W.Stat("load-on-empty-replica-mid-round")
+					}
+				}
+				k.W.Stat("load-beside-replication")
+				lop := k.Do(node, "load-beside-replication", 60, func() (interface{}, error) {
+					ctx, cancel := OpCtx(2 * time.Minute)
+					defer cancel()
+					return nil, st.Load(ctx, -1)
+				})
+				if lop.Done && lop.Err != nil {
+					k.Failf("C19/restart-load-error", "Load(-1) on running n%d failed: %v", node, lop.Err)
+				}
+			}
 		case 6:
 			// the next write of the merged heads to the cache fails on one replica (disk error
 			// at the end of a merge): the entries are in its log all the same
